@@ -26,7 +26,7 @@ type variantMeta struct {
 	ID        string   `json:"id"`
 	Property  string   `json:"property"`
 	Title     string   `json:"title"`
-	CheckWith []string `json:"check_with"`             // benign: every property whose rules read a patched file
+	CheckWith []string `json:"check_with"`            // benign: every property whose rules read a patched file
 	Reported  []string `json:"checks_that_report_it"` // seeded: the properties whose check reports the change
 }
 
